@@ -22,3 +22,4 @@ def run(repo, res, tier):
     if "new" in repo.modules:
         apirules.rule_f1(repo, res, "new")
     apirules.rule_f2(repo, res)
+    apirules.rule_f2b(repo, res)
